@@ -32,11 +32,17 @@ type tmpl struct {
 
 var argPool = []string{"1", "x", "2-1", "a || b", "println(\"side\")", "y = 5", "f(3)", "[1,2]", "n => n*2", "-4", "\"s\"", "x++", "1+2*3", "a == b", "{1:2}", "if c {1} else {2}", "z[0]", "q.r"}
 
-func genTemplate(c *Ctx) tmpl {
-	np := c.R.Intn(5)
+func genTemplate(c *Ctx) tmpl { return genTemplateN(c, c.R.Intn(5)) }
+
+func genTemplateN(c *Ctx, np int) tmpl {
 	pool := []string{"a", "b", "c", "d"}
-	if c.R.Pct(30) { // constant-looking (all upper case) parameter names: bound afresh at every call site
+	switch k := c.R.Intn(100); {
+	case k < 30: // constant-looking (all upper case) parameter names: bound afresh at every call site
 		pool = []string{"X", "COND", "A_B", "N2"}
+	case k < 45: // parameters named like the macros of the session or like globals of the prelude
+		pool = []string{"m", "mm", "x", "f"}
+	case k < 55: // parameters named like built-in / extension functions
+		pool = []string{"len", "str", "keys", "first"}
 	}
 	ps := pool[:min(np, 4)]
 	u := func() string {
@@ -90,22 +96,33 @@ func genSession(c *Ctx) sess {
 		ts = append(ts, t)
 		def += names[i] + " = macro(" + strings.Join(t.params, ", ") + ") {quote(" + t.text + ")}\n"
 	}
+	lastArgs := map[int][]string{}
 	call := func() (string, string) {
 		i := c.R.Intn(nm)
 		t := ts[i]
 		var args []string
-		for range t.params {
-			args = append(args, argPool[c.R.Intn(len(argPool))])
+		if la, ok := lastArgs[i]; ok && len(la) == len(t.params) && c.R.Pct(40) {
+			args = la // the very same call text as before (also after a redefinition of the macro)
+		} else {
+			for range t.params {
+				args = append(args, argPool[c.R.Intn(len(argPool))])
+			}
 		}
+		lastArgs[i] = args
 		return names[i] + "(" + strings.Join(args, ", ") + ")", substitute(t, args)
 	}
-	nin := 1 + c.R.Intn(3)
+	nin := 1 + c.R.Intn(4)
 	for k := 0; k < nin; k++ {
 		var a, b strings.Builder
 		if k == 0 {
 			prelude := "a=true;b=false;c=true;x=3;y=0;z=[5,6];q={\"r\":1};f=n=>n+1;g=(p,r)=>p\n"
 			a.WriteString(prelude + def)
 			b.WriteString(prelude)
+		}
+		if k > 0 && c.R.Pct(35) { // redefine one macro (same arity, new template): later calls use the new template
+			i := c.R.Intn(nm)
+			ts[i] = genTemplateN(c, len(ts[i].params))
+			a.WriteString(names[i] + " = macro(" + strings.Join(ts[i].params, ", ") + ") {quote(" + ts[i].text + ")}\n")
 		}
 		nst := 1 + c.R.Intn(3)
 		for j := 0; j < nst; j++ {
@@ -223,15 +240,32 @@ func parseProg(src string) (*ast.Statements, bool) {
 	return prog, len(p.Errors()) == 0
 }
 
-func evalSession(inputs []string) (string, []string) {
+// evalSession feeds the inputs to one session through one of the entry points that expand macros:
+// "repl" (repl.EvalOne), "evalstring" (eval.EvalString, what eval(..), load(..) and the auto-load use)
+func evalSession(inputs []string, entry string) (res string, errs []string) {
 	s := eval.NewState()
 	var out bytes.Buffer
 	s.Out, s.LogOut, s.NoLog = &out, &out, true
 	s.MaxDepth = 200
-	var errs []string
+	defer func() {
+		if r := recover(); r != nil {
+			res = out.String() + fmt.Sprintf("|PANIC %v", r)
+		}
+	}()
 	for _, in := range inputs {
-		_, _, e, _ := repl.EvalOne(context.Background(), s, in, &out, repl.Options{All: true, ShowEval: true, NoColor: true})
-		errs = append(errs, fmt.Sprint(len(e)))
+		switch entry {
+		case "evalstring":
+			o, err := eval.EvalString(s, in, false)
+			v := "nil"
+			if o != nil {
+				v = o.Inspect()
+			}
+			fmt.Fprintf(&out, "=> %s\n", v)
+			errs = append(errs, fmt.Sprint(err != nil))
+		default:
+			_, _, e, _ := repl.EvalOne(context.Background(), s, in, &out, repl.Options{All: true, ShowEval: true, NoColor: true})
+			errs = append(errs, fmt.Sprint(len(e)))
+		}
 	}
 	return out.String(), errs
 }
@@ -291,16 +325,19 @@ func one(c *Ctx, s sess) {
 	}
 	c.Case("MACRO "+strings.Join(dumpsIn, " "), strings.Join(obs, " "))
 	// evaluation: the session with macros behaves like the hand-substituted session
-	o1, e1 := evalSession(s.withMacros)
-	o2, e2 := evalSession(s.handSubst)
-	if okAll && (o1 != o2 || strings.Join(e1, ",") != strings.Join(e2, ",")) {
-		c.Fail("expanded-evaluates-differently", "MACRO "+Hx([]byte(strings.Join(s.withMacros, "\x00"))), fmt.Sprintf("out %q vs %q errs %v vs %v", o1, o2, e1, e2))
+	for _, entry := range []string{"repl", "evalstring"} {
+		o1, e1 := evalSession(s.withMacros, entry)
+		o2, e2 := evalSession(s.handSubst, entry)
+		if okAll && (o1 != o2 || strings.Join(e1, ",") != strings.Join(e2, ",")) {
+			c.Fail("expanded-evaluates-differently:"+entry, "MACRO "+Hx([]byte(strings.Join(s.withMacros, "\x00"))), fmt.Sprintf("out %q vs %q errs %v vs %v", o1, o2, e1, e2))
+		}
+		c.Count("entry=" + entry)
 	}
 	c.NonTrivial(strings.Join(s.withMacros, "|"))
 }
 
 func run(c *Ctx) {
-	c.Rule = "sessions of 1-3 inputs defining 1-2 quoted-template macros (0-4 parameters, each used 0-3 times, 15 template forms incl. unquote in callee position) and using them at top level, " +
+	c.Rule = "sessions of 1-4 inputs defining 1-2 quoted-template macros (0-4 parameters named a..d, upper case, like the session's macros / globals, or like built-in functions; a macro may be redefined between inputs and the same call text re-used; each session evaluated through repl.EvalOne and through eval.EvalString; each parameter used 0-3 times, 15 template forms incl. unquote in callee position) and using them at top level, " +
 		"in functions, loops, if branches, as argument of another macro call and in callee position, with arguments from a pool incl. side effects and operators looser than the context. non-trivial = distinct sessions"
 	_ = extensions.Init(nil)
 	log.SetLogLevelQuiet(log.Critical)
@@ -318,6 +355,9 @@ func run(c *Ctx) {
 	one(c, sess{[]string{"m = macro(f){quote(unquote(f)(1))}\nm(len)\n"}, []string{"((len)(1))\n"}})
 	one(c, sess{[]string{"sq = macro(X){quote(unquote(X)*unquote(X))}\nsq(3); sq(1+1)\n"}, []string{"((3)*(3)); ((1+1)*(1+1))\n"}})
 	one(c, sess{[]string{"pair = macro(a,b){quote([unquote(a),unquote(b)])}\npair(1,2); pair(3,4)\n", "pair(5,6)\n"}, []string{"([(1),(2)]); ([(3),(4)])\n", "([(5),(6)])\n"}})
+	one(c, sess{[]string{"m = macro(a){quote(unquote(a)+1)}\nmm = macro(m){quote(unquote(m)*2)}\nmm(5)\nm(2)\n"}, []string{"((5)*2)\n((2)+1)\n"}})
+	one(c, sess{[]string{"k = macro(len){quote(unquote(len)+1)}\nk(5)\nlen([1,2])\n"}, []string{"((5)+1)\nlen([1,2])\n"}})
+	one(c, sess{[]string{"m = macro(a){quote(unquote(a)+1)}\nm(3)\n", "m = macro(a){quote(unquote(a)*10)}\nm(3)\n"}, []string{"((3)+1)\n", "((3)*10)\n"}})
 	n := 500
 	if c.Thorough() {
 		n = 20000
